@@ -68,6 +68,11 @@ def cases(tier, seed):
     for c, n in (('AES256', 32), ('AES256', 16), ('AES256', 24), ('AES128', 16), ('AES128', 32), ('TripleDES', 24), ('CAST5', 16)):
         cs.append({'d': 'A', 'msg': {'body': 'ascii', 'comp': 'Uncompressed'}, 'cipher': c, 'rcpts': [['key', 'cv25519_0', True]], 'sk': 'fixed%d' % n, 'signed': False, 'armor': False})
         cs.append({'d': 'A', 'msg': {'body': 'ascii', 'comp': 'Uncompressed'}, 'cipher': c, 'rcpts': [['pass', 0, 'SHA256']], 'sk': 'fixed%d' % n, 'signed': False, 'armor': False})
+    # A6: recipients whose encrypting component is granted only one of the two encryption capabilities (alone, and beside a passphrase)
+    for fl in ('comm', 'storage'):
+        for rn, assub in (('cv25519_0', True), ('rsa1024_1', True), ('rsa2048_1', False), ('ecdh_p256_0', True)):
+            cs.append({'d': 'A', 'msg': {'body': 'ascii', 'comp': 'ZLIB'}, 'cipher': 'AES256', 'rcpts': [['key', rn, assub, fl]], 'sk': 'gen', 'signed': True, 'armor': False})
+            cs.append({'d': 'A', 'msg': {'body': 'text', 'comp': 'ZIP'}, 'cipher': 'AES128', 'rcpts': [['key', rn, assub, fl], ['pass', 0, 'SHA256']], 'sk': 'supplied', 'signed': False, 'armor': True})
     for c in ('IDEA', 'Twofish256'):
         cs.append({'d': 'refuse', 'cipher': c})
     if tier == 'thorough':
@@ -140,7 +145,7 @@ def _A(ctx, d, pgpy):
     try:
         for r in d['rcpts']:
             if r[0] == 'key':
-                k, m = encwork.recipient(r[1], r[2])
+                k, m = encwork.recipient(r[1], r[2], r[3] if len(r) > 3 else 'both')
                 enc = (encwork.longlived_pub(k) if len(d['rcpts']) % 2 else k.pubkey).encrypt(enc, sessionkey=sk, cipher=calg)
                 secrets.append(('key', m))
                 privs.append(('key', k))
